@@ -55,19 +55,8 @@ def SatDoc (m : Mode) (a : Facts) : Flag → Prop
   | .u => True
   | .s => True
 
-/-- what the code tests: differs from `SatDoc` in `f` under `c` (a FIFO is not
-a file there) and in `cc` (non-directories are skipped when looking for the
-ancestor in which to create) -/
-def SatCode (m : Mode) (a : Facts) : Flag → Prop
-  | .f => (m.c = 0 → a.ex = true ∧ (a.isFile = true ∨ a.isFifo = true)) ∧ (m.c > 0 → a.ex = true → a.isFile = true)
-  | .cc => if a.parDir then a.parW = true else a.ancDir = true ∧ a.ancW = true
-  | fl => SatDoc m a fl
-
 instance (m : Mode) (a : Facts) (fl : Flag) : Decidable (SatDoc m a fl) := by
   cases fl <;> unfold SatDoc <;> infer_instance
-
-instance (m : Mode) (a : Facts) (fl : Flag) : Decidable (SatCode m a fl) := by
-  cases fl <;> unfold SatCode <;> (try unfold SatDoc) <;> infer_instance
 
 /-- executable form of "every flag of the mode is satisfied" (used by the driver) -/
 def satAllDoc (m : Mode) (a : Facts) : Bool := Flag.all.all (fun fl => !m.has fl || decide (SatDoc m a fl))
@@ -83,13 +72,6 @@ theorem satAllDoc_iff (m : Mode) (a : Facts) : satAllDoc m a = true ↔ ∀ fl, 
     cases hfl : m.has fl
     · simp
     · simpa using h fl hfl
-
-/-- the two classes of inputs on which the code departs from the docstring (row 17 of DESIGN §7) -/
-def Guard (m : Mode) (a : Facts) : Prop :=
-  ¬ (m.c > 0 ∧ m.f = true ∧ a.isFifo = true) ∧            -- an existing FIFO under `fc` / `fcc`
-  ¬ (m.c = 2 ∧ a.parDir = false ∧ a.nearDir = false)       -- `cc` and the nearest existing ancestor is not a directory
-
-instance (m : Mode) (a : Facts) : Decidable (Guard m a) := by unfold Guard; infer_instance
 
 /-! ### first raise -/
 
@@ -118,74 +100,58 @@ theorem checks_ne_ok (m : Mode) (a : Facts) : (checks m a).all (fun p => p.2 != 
   unfold checks
   split <;> (try split) <;> simp
 
-/-- the constructor succeeds exactly when every flag is satisfied in the code's reading -/
-theorem accept_code (m : Mode) (a : Facts) (hw : a.wf) (hv : ValidMode m) :
-    checkPath m a = .ok ↔ ∀ fl, m.has fl = true → SatCode m a fl := by
+/-- the constructor succeeds exactly when every flag is satisfied as the docstring describes it -/
+theorem accept_doc (m : Mode) (a : Facts) (hw : a.wf) (hv : ValidMode m) :
+    checkPath m a = .ok ↔ ∀ fl, m.has fl = true → SatDoc m a fl := by
   unfold checkPath
   rw [firstRaise_ok (checks_ne_ok m a)]
   obtain ⟨f, d, r, w, x, F, D, R, W, X, u, s, c⟩ := m
   obtain ⟨hc, _, _, _⟩ := hv
   simp only at hc
-  obtain ⟨h1, h2, h3, h4, h5, h6, h7, h8, h9, h10, h11, h12, h13, h14⟩ := hw
+  obtain ⟨h1, h2, h3, h4, h5, h6, h7, h8, h9, h10, h11, h12⟩ := hw
   constructor
   · intro h fl hfl
     match c, hc with
     | 0, _ =>
       simp [checks] at h
-      cases fl <;> simp [Mode.has] at hfl <;> simp [SatCode, SatDoc] <;> grind
+      cases fl <;> simp [Mode.has] at hfl <;> simp [SatDoc] <;> grind
     | 1, _ =>
       simp [checks] at h
-      cases fl <;> simp [Mode.has] at hfl <;> simp [SatCode, SatDoc] <;> grind
+      cases fl <;> simp [Mode.has] at hfl <;> simp [SatDoc] <;> grind
     | 2, _ =>
       simp [checks] at h
-      cases fl <;> simp [Mode.has] at hfl <;> simp [SatCode, SatDoc] <;> grind
+      cases fl <;> simp [Mode.has] at hfl <;> simp [SatDoc] <;> grind
   · intro h
     have hf := h .f; have hd := h .d; have hr := h .r; have hw := h .w; have hx := h .x
     have hc1 := h .c; have hc2 := h .cc; have hF := h .F; have hD := h .D; have hR := h .R; have hW := h .W; have hX := h .X
     clear h
     match c, hc with
     | 0, _ =>
-      simp [Mode.has, SatCode, SatDoc] at hf hd hr hw hx hc1 hc2 hF hD hR hW hX
+      simp [Mode.has, SatDoc] at hf hd hr hw hx hc1 hc2 hF hD hR hW hX
       simp [checks]
       grind (splits := 40)
     | 1, _ =>
-      simp [Mode.has, SatCode, SatDoc] at hf hd hr hw hx hc1 hc2 hF hD hR hW hX
+      simp [Mode.has, SatDoc] at hf hd hr hw hx hc1 hc2 hF hD hR hW hX
       simp [checks]
       grind (splits := 40)
     | 2, _ =>
-      simp [Mode.has, SatCode, SatDoc] at hf hd hr hw hx hc1 hc2 hF hD hR hW hX
+      simp [Mode.has, SatDoc] at hf hd hr hw hx hc1 hc2 hF hD hR hW hX
       simp [checks]
       grind (splits := 40)
 
-/-- away from the two guarded classes the code's reading and the docstring's coincide -/
-theorem satCode_iff_satDoc (m : Mode) (a : Facts) (hw : a.wf) (hv : ValidMode m) (hg : Guard m a) :
-    (∀ fl, m.has fl = true → SatCode m a fl) ↔ (∀ fl, m.has fl = true → SatDoc m a fl) := by
-  obtain ⟨f, d, r, w, x, F, D, R, W, X, u, s, c⟩ := m
-  obtain ⟨hc, _, _, _⟩ := hv
-  obtain ⟨g1, g2⟩ := hg
-  simp only at hc g1 g2
-  obtain ⟨h1, h2, h3, h4, h5, h6, h7, h8, h9, h10, h11, h12, h13, h14⟩ := hw
-  constructor
-  · intro h fl hfl
-    have hf := h .f; have hcc := h .cc; have hfl' := h fl hfl
-    clear h
-    match c, hc with
-    | 0, _ =>
-      cases fl <;> simp [Mode.has, SatCode, SatDoc] at hfl hfl' hf hcc g1 g2 ⊢ <;> grind
-    | 1, _ =>
-      cases fl <;> simp [Mode.has, SatCode, SatDoc] at hfl hfl' hf hcc g1 g2 ⊢ <;> grind
-    | 2, _ =>
-      cases fl <;> simp [Mode.has, SatCode, SatDoc] at hfl hfl' hf hcc g1 g2 ⊢ <;> grind
-  · intro h fl hfl
-    have hf := h .f; have hcc := h .cc; have hfl' := h fl hfl
-    clear h
-    match c, hc with
-    | 0, _ =>
-      cases fl <;> simp [Mode.has, SatCode, SatDoc] at hfl hfl' hf hcc g1 g2 ⊢ <;> grind
-    | 1, _ =>
-      cases fl <;> simp [Mode.has, SatCode, SatDoc] at hfl hfl' hf hcc g1 g2 ⊢ <;> grind
-    | 2, _ =>
-      cases fl <;> simp [Mode.has, SatCode, SatDoc] at hfl hfl' hf hcc g1 g2 ⊢ <;> grind
+/-! ### the code before commits 5706b13 / f765cf2 (regression record) -/
+
+/-- the `c` branch as it was: the ancestor search skipped every non-directory
+(`ancDir`/`ancW`: the nearest ancestor that *is a directory* / is writeable), and
+`f` under `c` asked for `os.path.isfile` only -/
+def checkPathPreFix (m : Mode) (a : Facts) (ancDir ancW : Bool) : Out :=
+  if m.c > 0 then
+    firstRaise
+      ([ (!(a.parDir || (m.c == 2 && ancDir)), .pathError 1),
+         (!(if a.parDir then a.parW else ancW), .pathError 2),
+         (m.d && a.ex && !a.isDir, .pathError 3),
+         (m.f && a.ex && !a.isFile, .pathError 4) ] ++ (checks { m with c := 0, f := false, d := false } a))
+  else checkPath m a
 
 /-! ### no OS error escapes -/
 
